@@ -393,14 +393,18 @@ def gen_case(rng, multi=None, want_match=False, cap=18):
             root = g.obj("Model", max(depth, h["Model"]) + 1)
         else:
             rr = root_rule(schema)
-            root = g.value(rr, max(depth, h[rr]))
+            budget = max(depth, h[rr])
+            root = g.value(rr, budget)
             tries = 0
             while not (isinstance(root, dict) and "uid" in root):
-                # an abstract root rule chose a match alternative: the model would be a primitive
-                root = g.value(rr, max(depth, h[rr]))
+                # an abstract root rule chose a match alternative (the model would be a primitive),
+                # or its object alternatives need more depth
                 tries += 1
-                if tries > 20:
+                if tries % 5 == 0:
+                    budget += 1
+                if tries > 60:
                     raise RuntimeError("no object root")
+                root = g.value(rr, budget)
         files.append({"root": root, "imports": []})
     if nfiles > 1:
         for j in range(1, nfiles):
